@@ -39,8 +39,23 @@ CALCS = [("soft", "plain"), ("soft", "keyed"), ("soft", "peratom"), ("emt", "ase
 
 
 def plan(tier, seed):
-    n = 32 if tier == "quick" else 64
-    return [{"name": f"{FAMILIES[j % 8]}-{CALCS[(j // 2) % 8][0]}-{CALCS[(j // 2) % 8][1]}-{'AB'[j % 2]}{j}", "family": FAMILIES[j % 8], "calc": CALCS[(j // 2 + j % 8) % 8], "pass": "AB"[j % 2], "j": j, "seed": seed, "sims": 14 if tier == "quick" else 40, "steps": 25 if tier == "quick" else 70} for j in range(n)]
+    combos = []
+    for fam in ("grand",):
+        for calc in (("soft", "plain"), ("soft", "keyed"), ("soft", "peratom"), ("emt", "ase"), ("lj", "ase")):
+            for ps in "AB":
+                combos.append((fam, calc, ps))
+    others = [("soft", "plain"), ("soft", "keyed"), ("soft", "peratom"), ("emt", "ase"), ("lj", "ase")]
+    k = 0
+    for fam in ("canonical", "isobaric", "isotension"):
+        for calc in others:
+            combos.append((fam, calc, "AB"[k % 2]))
+            k += 1
+    for calc in (("soft", "plain"), ("soft", "keyed"), ("soft", "peratom")):
+        combos.append(("hamiltonian", calc, "AB"[k % 2]))
+        k += 1
+    if tier != "quick":
+        combos = combos + [(f, c, "AB"[(i + 1) % 2]) for i, (f, c, _) in enumerate(combos)]
+    return [{"name": f"{f}-{c[0]}-{c[1]}-{ps}{j}", "family": f, "calc": list(c), "pass": ps, "j": j, "seed": seed, "sims": 14 if tier == "quick" else 40, "steps": 25 if tier == "quick" else 70} for j, (f, c, ps) in enumerate(combos)]
 
 
 class Counting:
